@@ -76,6 +76,11 @@ def cases(tier, seed):
                     out.append({"id": "host-size-%d" % k, "kind": "hostile", "what": what, "x": x, "aspect": asp, "m": m,
                                 "rot": [0.0, 0.4, 0.3], "flavour": "chk", "cost": 4, "timeout": 240})
                     k += 1
+    # sizes that are no sizes: negative, zero, not a number, infinite (F135: the interpreter must survive them)
+    for j, (bad, asp_) in enumerate([(-0.3, 1.5), (float("nan"), 1.5), (0.3, -1.5), (0.3, float("nan")), (0.0, 1.5), (float("inf"), 1.5), (0.3, float("inf"))]):
+        for what in ("spheroid", "cylinder"):
+            out.append({"id": "host-badsize-%d-%s" % (j, what), "kind": "hostile", "what": what, "x": 2.0, "aspect": asp_, "m": [1.3, 0.0], "rot": [0.0, 0.4, 0.3],
+                        "raw_r": bad, "flavour": "chk", "cost": 2, "proc": "badsize-%d-%s" % (j, what)})
     for j, r3 in enumerate([(0.0, 1e-7, 1e-7), (0.0, 1e-7, 0.0), (0.3, 1e-7, 1e-7), (0.0, math.pi - 1e-7, 1e-7), (1e-7, 1e-7, 1e-7), (0.0, 2e-7, 1e-7)]):
         # orientations that coincide with the directions the Fortran code nudges by 1e-7 internally
         out.append({"id": "host-nudge-%d" % j, "kind": "hostile", "what": ["spheroid", "cylinder"][j % 2], "x": 2.0, "aspect": 1.4, "m": [1.3, 0.0],
@@ -241,14 +246,17 @@ def _run_hostile(case):
     k = 2 * math.pi * nmed / wl
     m = complex(*case["m"])
     n = (m if m.imag else m.real) * nmed
-    r = case["x"] / k
+    r = case["x"] / k if case.get("raw_r") is None else case["raw_r"]
     asp = case["aspect"]
-    if case["what"] == "sphere":
-        s = Sphere(n=n, r=r, center=(1, 1, 10))
-    elif case["what"] == "spheroid":
-        s = Spheroid(n=n, r=(r, r * asp), rotation=tuple(case["rot"]), center=(1, 1, 10))
-    else:
-        s = Cylinder(n=n, d=2 * r, h=2 * r * asp, rotation=tuple(case["rot"]), center=(1, 1, 10))
+    try:
+        if case["what"] == "sphere":
+            s = Sphere(n=n, r=r, center=(1, 1, 10))
+        elif case["what"] == "spheroid":
+            s = Spheroid(n=n, r=(r, r * asp), rotation=tuple(case["rot"]), center=(1, 1, 10))
+        else:
+            s = Cylinder(n=n, d=2 * r, h=2 * r * asp, rotation=tuple(case["rot"]), center=(1, 1, 10))
+    except Exception as e:
+        return {"resid": {}, "flags": {}, "outcome": {"constructor": "raised:" + type(e).__name__}, "fmax": 1.0}
     outcome = {}
     if case.get("det_angles"):
         th, ph = case["det_angles"]
